@@ -708,8 +708,15 @@ class XsdElement(XsdComponent, ParticleMixin,
                 inherited.update((k, v) for k, v in obj.attrib.items() if k in self.inheritable)
             else:
                 inherited = {k: v for k, v in obj.attrib.items() if k in self.inheritable}
+            # Descendants get their own inherited attributes but have to
+            # share the collectors of errors, IDs and identity constraints.
+            outer_context = context
             context = _copy(context)
             context.inherited = inherited
+            context.errors = outer_context.errors
+            context.id_map = outer_context.id_map
+            context.identities = outer_context.identities
+            context.id_list = outer_context.id_list
 
         # Checks the xsi:nil attribute of the instance
         if nm.XSI_NIL in obj.attrib:
